@@ -151,6 +151,31 @@ theorem ArgsDone.tail {g : Graph V} (hwf : g.WF) {j : Nat} {rest : List Nat}
     simp at this
     exact this.2
 
+/-- two assignments that are coherent outside `L` (one of them everywhere) agree outside `L` -/
+theorem coh_agree (g : Graph V) (hwf : g.WF) (x : Nat → V) (c1 c2 : Nat → V) (L : List Nat)
+    (hAD : ArgsDone g L) (hP : ∀ k, k < g.n → k ∉ L → CohAt g c1 x k) (hc : Coh g c2 x) :
+    ∀ k, k < g.n → k ∉ L → c1 k = c2 k := by
+  intro k
+  induction k using Nat.strongRecOn with
+  | _ k ih =>
+    intro hk hkL
+    have h1 := hP k hk hkL
+    have h2 := hc k hk
+    unfold CohAt at h1 h2
+    cases hcell : g.cell k with
+    | opt t => simp [hcell] at h1 h2; rw [h1, h2]
+    | const v => simp [hcell] at h1 h2; rw [h1, h2]
+    | eval r args f =>
+      simp [hcell] at h1 h2
+      have : args.map c1 = args.map c2 := by
+        apply List.map_congr_left
+        intro a ha
+        have ha' : a ∈ (g.cell k).args := by simp [hcell, Cell.args, ha]
+        have hak : a < k := hwf.1 k hk a ha'
+        exact ih a hak (by omega) (hAD k hk hkL a ha')
+      rw [this, h2] at h1
+      exact (Option.some.inj h1).symm
+
 theorem runProg_spec (g : Graph V) (hwf : g.WF) (d : Bool) (x : Nat → V) :
     ∀ (rest : List Nat) (s : St V),
       rest.Pairwise (· < ·) → (∀ j, j ∈ rest → j < g.n ∧ (g.cell j).args ≠ []) → ArgsDone g rest →
@@ -158,12 +183,13 @@ theorem runProg_spec (g : Graph V) (hwf : g.WF) (d : Bool) (x : Nat → V) :
       (∀ j, j ∈ rest → g.isRec j = true → s.ptr d j ≠ s.ptr (!d) j) →
       ((runProg g d rest s).2 = true → Coh g (content g (runProg g d rest s).1 d) x) ∧
       (∀ k, content g (runProg g d rest s).1 (!d) k = content g s (!d) k) ∧
-      SameCtl s (runProg g d rest s).1 ∧ (runProg g d rest s).1.lastValues = s.lastValues := by
+      SameCtl s (runProg g d rest s).1 ∧ (runProg g d rest s).1.lastValues = s.lastValues ∧
+      ((runProg g d rest s).2 = false → ∀ c, ¬ Coh g c x) := by
   intro rest
   induction rest with
   | nil =>
     intro s _ _ _ hP _
-    exact ⟨fun _ k hk => hP k hk (by simp), fun _ => rfl, SameCtl.refl s, rfl⟩
+    exact ⟨fun _ k hk => hP k hk (by simp), fun _ => rfl, SameCtl.refl s, rfl, fun h => by simp [runProg] at h⟩
   | cons j rest ih =>
     intro s hs hlt hA hP hptr
     have hjn : j < g.n := (hlt j (by simp)).1
@@ -179,7 +205,26 @@ theorem runProg_spec (g : Graph V) (hwf : g.WF) (d : Bool) (x : Nat → V) :
       simp only []
       cases hf : f (args.map (content g s d)) with
       | none =>
-        simp [SameCtl]
+        simp only []
+        refine ⟨fun h => by simp at h, by simp, by simp [SameCtl], by simp, ?_⟩
+        intro _ c hcoh
+        have hagree := coh_agree g hwf x (content g s d) c (j :: rest) hA hP hcoh
+        have hj := hcoh j hjn
+        unfold CohAt at hj
+        simp only [hc] at hj
+        have : args.map c = args.map (content g s d) := by
+          apply List.map_congr_left
+          intro a ha
+          have ha' : a ∈ (g.cell j).args := by simp [hc, Cell.args, ha]
+          have haj : a < j := hwf.1 j hjn a ha'
+          have hnot : a ∉ j :: rest := by
+            intro hmem
+            rcases List.mem_cons.1 hmem with h | h
+            · omega
+            · have := (List.pairwise_cons.1 hs).1 a h; omega
+          exact (hagree a (by omega) hnot).symm
+        rw [this, hf] at hj
+        cases hj
       | some v =>
         simp only []
         have hw := write_sameCtl g s d j v
@@ -188,8 +233,8 @@ theorem runProg_spec (g : Graph V) (hwf : g.WF) (d : Bool) (x : Nat → V) :
           have := hwf.1 j hjn a (by simp [hc, Cell.args, ha])
           omega
         have := ih (write g s d j v) hs' (fun k hk => hlt k (by simp [hk])) hA' ?_ ?_
-        · obtain ⟨h1, h2, h3, h4⟩ := this
-          refine ⟨h1, ?_, SameCtl.trans hw.1 h3, h4.trans hw.2⟩
+        · obtain ⟨h1, h2, h3, h4, h5⟩ := this
+          refine ⟨h1, ?_, SameCtl.trans hw.1 h3, h4.trans hw.2, h5⟩
           intro k
           rw [h2 k]
           exact content_write_other g s d j v (hptr j (by simp)) k
@@ -400,7 +445,8 @@ theorem applyChanges_core (g : Graph V) (hwf : g.WF) (s1 : St V) (ch : List (Nat
     (r4.2 = true → Coh g (content g r4.1 (!s1.sw)) (patch s1.lastValues ch)) ∧
     (∀ k, content g r4.1 s1.sw k = content g s1 s1.sw k) ∧
     SpareOK g r4.1 ∧ r4.1.sw = (!s1.sw) ∧ r4.1.lastValues = patch s1.lastValues ch ∧
-    r4.1.lastUndo = [] ∧ r3.2 = ch.map (fun p => (p.1, s1.lastValues p.1)) := by
+    r4.1.lastUndo = [] ∧ r3.2 = ch.map (fun p => (p.1, s1.lastValues p.1)) ∧
+    (r4.2 = false → ∀ c, ¬ Coh g c (patch s1.lastValues ch)) := by
   have hspA : SpareOK g (flipped s1) := hsp
   have hfsw : (flipped s1).sw = (!s1.sw) := rfl
   obtain ⟨hf1, hf2, hf3, hf4⟩ := prepare_fields g (flipped s1) prog
@@ -476,9 +522,9 @@ theorem applyChanges_core (g : Graph V) (hwf : g.WF) (s1 : St V) (ch : List (Nat
   have hrun := runProg_spec g hwf (!s1.sw) (patch s1.lastValues ch) prog r3.1
     (hprog ▸ program_sorted g _) hlt hAD hP hptr3
   rw [← hr4] at hrun
-  obtain ⟨h1, h2, h3, h4⟩ := hrun
+  obtain ⟨h1, h2, h3, h4, h8⟩ := hrun
   simp only [Bool.not_not] at h2
-  refine ⟨h1, ?_, ?_, ?_, ?_, ?_, ?_⟩
+  refine ⟨h1, ?_, ?_, ?_, ?_, ?_, ?_, h8⟩
   · intro k; rw [h2 k]; exact hc3b k
   · intro r hr b heq
     rw [h3.1, c1.1] at heq ⊢
@@ -524,8 +570,9 @@ theorem applyChanges_spec (g : Graph V) (hwf : g.WF) (s1 : St V) (ch : List (Nat
       v = content g (applyChanges g s1 ch).1 (applyChanges g s1 ch).1.sw (g.n - 1)) ∧
     ((applyChanges g s1 ch).2 = none →
       (applyChanges g s1 ch).1.lastValues = s1.lastValues ∧ (applyChanges g s1 ch).1.sw = s1.sw ∧
-      ∀ k, content g (applyChanges g s1 ch).1 s1.sw k = content g s1 s1.sw k) := by
-  obtain ⟨h1, h2, h3, h4, h5, h6, h7⟩ :=
+      ∀ k, content g (applyChanges g s1 ch).1 s1.sw k = content g s1 s1.sw k) ∧
+    ((applyChanges g s1 ch).2 = none → ∀ c, ¬ Coh g c (patch s1.lastValues ch)) := by
+  obtain ⟨h1, h2, h3, h4, h5, h6, h7, h8⟩ :=
     applyChanges_core g hwf s1 ch hv hcur hsp _ rfl _ rfl (stage3 g s1 ch) rfl (stage4 g s1 ch) rfl
   have hbase : Coh g (content g (stage4 g s1 ch).1 s1.sw) s1.lastValues := by
     intro k hk
@@ -537,7 +584,7 @@ theorem applyChanges_spec (g : Graph V) (hwf : g.WF) (s1 : St V) (ch : List (Nat
   cases hok : (stage4 g s1 ch).2 with
   | true =>
     simp only [if_true]
-    refine ⟨⟨?_, ?_, ?_⟩, ?_, ?_⟩
+    refine ⟨⟨?_, ?_, ?_⟩, ?_, ?_, ?_⟩
     · show Coh g (content g (stage4 g s1 ch).1 (stage4 g s1 ch).1.sw) (stage4 g s1 ch).1.lastValues
       rw [h4, h5]; exact h1 hok
     · intro _
@@ -550,9 +597,10 @@ theorem applyChanges_spec (g : Graph V) (hwf : g.WF) (s1 : St V) (ch : List (Nat
       simp only [Option.some.injEq] at hv'
       exact ⟨h5, hv'.symm⟩
     · intro h; simp at h
+    · intro h; simp at h
   | false =>
     simp only [Bool.false_eq_true, if_false]
-    refine ⟨⟨?_, ?_, ?_⟩, ?_, ?_⟩
+    refine ⟨⟨?_, ?_, ?_⟩, ?_, ?_, fun _ => h8 hok⟩
     · show Coh g (content g (stage4 g s1 ch).1 (!(stage4 g s1 ch).1.sw))
         (patch (stage4 g s1 ch).1.lastValues (stage3 g s1 ch).2)
       rw [h4, h5, h7, patch_changed, Bool.not_not]
